@@ -28,6 +28,9 @@ Model/MonC05.vos Model/MonC05.vok Model/MonC05.required_vos: Model/MonC05.v Mode
 Model/MonC04.vo Model/MonC04.glob Model/MonC04.v.beautified Model/MonC04.required_vo: Model/MonC04.v Model/Mon.vo
 Model/MonC04.vio: Model/MonC04.v Model/Mon.vio
 Model/MonC04.vos Model/MonC04.vok Model/MonC04.required_vos: Model/MonC04.v Model/Mon.vos
+Model/MonC07.vo Model/MonC07.glob Model/MonC07.v.beautified Model/MonC07.required_vo: Model/MonC07.v Model/Mon.vo
+Model/MonC07.vio: Model/MonC07.v Model/Mon.vio
+Model/MonC07.vos Model/MonC07.vok Model/MonC07.required_vos: Model/MonC07.v Model/Mon.vos
 Proofs/Framework.vo Proofs/Framework.glob Proofs/Framework.v.beautified Proofs/Framework.required_vo: Proofs/Framework.v Model/Mon.vo
 Proofs/Framework.vio: Proofs/Framework.v Model/Mon.vio
 Proofs/Framework.vos Proofs/Framework.vok Proofs/Framework.required_vos: Proofs/Framework.v Model/Mon.vos
@@ -64,6 +67,9 @@ Proofs/PC05.vos Proofs/PC05.vok Proofs/PC05.required_vos: Proofs/PC05.v Model/Mo
 Proofs/PC04.vo Proofs/PC04.glob Proofs/PC04.v.beautified Proofs/PC04.required_vo: Proofs/PC04.v Model/Mon.vo Model/MonC04.vo Proofs/Framework.vo Proofs/StoreLocks.vo Proofs/StorePromises.vo Proofs/Discipline.vo Proofs/SysInv.vo Proofs/Eqb.vo
 Proofs/PC04.vio: Proofs/PC04.v Model/Mon.vio Model/MonC04.vio Proofs/Framework.vio Proofs/StoreLocks.vio Proofs/StorePromises.vio Proofs/Discipline.vio Proofs/SysInv.vio Proofs/Eqb.vio
 Proofs/PC04.vos Proofs/PC04.vok Proofs/PC04.required_vos: Proofs/PC04.v Model/Mon.vos Model/MonC04.vos Proofs/Framework.vos Proofs/StoreLocks.vos Proofs/StorePromises.vos Proofs/Discipline.vos Proofs/SysInv.vos Proofs/Eqb.vos
+Proofs/PC07.vo Proofs/PC07.glob Proofs/PC07.v.beautified Proofs/PC07.required_vo: Proofs/PC07.v Model/Mon.vo Model/MonC07.vo Proofs/Framework.vo Proofs/StoreLocks.vo Proofs/StorePromises.vo Proofs/StoreCallbacks.vo Proofs/Discipline.vo Proofs/SysInv.vo Proofs/Eqb.vo Proofs/PC16.vo Proofs/PC05.vo
+Proofs/PC07.vio: Proofs/PC07.v Model/Mon.vio Model/MonC07.vio Proofs/Framework.vio Proofs/StoreLocks.vio Proofs/StorePromises.vio Proofs/StoreCallbacks.vio Proofs/Discipline.vio Proofs/SysInv.vio Proofs/Eqb.vio Proofs/PC16.vio Proofs/PC05.vio
+Proofs/PC07.vos Proofs/PC07.vok Proofs/PC07.required_vos: Proofs/PC07.v Model/Mon.vos Model/MonC07.vos Proofs/Framework.vos Proofs/StoreLocks.vos Proofs/StorePromises.vos Proofs/StoreCallbacks.vos Proofs/Discipline.vos Proofs/SysInv.vos Proofs/Eqb.vos Proofs/PC16.vos Proofs/PC05.vos
 Props/C09.vo Props/C09.glob Props/C09.v.beautified Props/C09.required_vo: Props/C09.v Model/Mon.vo Model/MonC09.vo Proofs/StoreLocks.vo Proofs/Discipline.vo Proofs/SysInv.vo Proofs/PC09.vo
 Props/C09.vio: Props/C09.v Model/Mon.vio Model/MonC09.vio Proofs/StoreLocks.vio Proofs/Discipline.vio Proofs/SysInv.vio Proofs/PC09.vio
 Props/C09.vos Props/C09.vok Props/C09.required_vos: Props/C09.v Model/Mon.vos Model/MonC09.vos Proofs/StoreLocks.vos Proofs/Discipline.vos Proofs/SysInv.vos Proofs/PC09.vos
@@ -79,3 +85,6 @@ Props/C05.vos Props/C05.vok Props/C05.required_vos: Props/C05.v Model/Mon.vos Mo
 Props/C04.vo Props/C04.glob Props/C04.v.beautified Props/C04.required_vo: Props/C04.v Model/Mon.vo Model/MonC04.vo Proofs/StoreLocks.vo Proofs/StorePromises.vo Proofs/Discipline.vo Proofs/SysInv.vo Proofs/PC04.vo
 Props/C04.vio: Props/C04.v Model/Mon.vio Model/MonC04.vio Proofs/StoreLocks.vio Proofs/StorePromises.vio Proofs/Discipline.vio Proofs/SysInv.vio Proofs/PC04.vio
 Props/C04.vos Props/C04.vok Props/C04.required_vos: Props/C04.v Model/Mon.vos Model/MonC04.vos Proofs/StoreLocks.vos Proofs/StorePromises.vos Proofs/Discipline.vos Proofs/SysInv.vos Proofs/PC04.vos
+Props/C07.vo Props/C07.glob Props/C07.v.beautified Props/C07.required_vo: Props/C07.v Model/Mon.vo Model/MonC07.vo Proofs/StoreLocks.vo Proofs/StorePromises.vo Proofs/StoreCallbacks.vo Proofs/Discipline.vo Proofs/SysInv.vo Proofs/PC05.vo Proofs/PC07.vo
+Props/C07.vio: Props/C07.v Model/Mon.vio Model/MonC07.vio Proofs/StoreLocks.vio Proofs/StorePromises.vio Proofs/StoreCallbacks.vio Proofs/Discipline.vio Proofs/SysInv.vio Proofs/PC05.vio Proofs/PC07.vio
+Props/C07.vos Props/C07.vok Props/C07.required_vos: Props/C07.v Model/Mon.vos Model/MonC07.vos Proofs/StoreLocks.vos Proofs/StorePromises.vos Proofs/StoreCallbacks.vos Proofs/Discipline.vos Proofs/SysInv.vos Proofs/PC05.vos Proofs/PC07.vos
